@@ -337,6 +337,16 @@ fn isolated(a0: &LeafAssign, r: &mut Rng) -> Vec<(String, LeafAssign)> {
         a.nullifier = rand_digest(r);
         v.push((format!("iso:dummy-decision-only-out{}-nonzero", i + 1), a));
     }
+    // 3b. the nullifier's transfer-count limbs differ from the leaf's but pack to the same value hi * 2^32 + lo (mod p):
+    //     (hi + k, lo - k * 2^32).  A wiring weakened to one packed equality (the 32-bit range checks sit on the LEAF's
+    //     limbs only) would accept it; nullifier re-derived from its own limbs.
+    for k in [1u64, 2, 0xFFFF] {
+        let mut a = a0.clone();
+        let shift = ((k as u128) << 32) % P as u128;
+        a.null_tc = [bump(a.null_tc[0], k), ((a.null_tc[1] as u128 + P as u128 - shift) % P as u128) as u64];
+        a.nullifier = LeafAssign::nullifier_of(&a.null_secret, &a.null_tc);
+        v.push((format!("iso:transfer-count-wiring-packed-value-preserved-k{}", k), a));
+    }
     // 10. one scalar just outside its range (2^32, and 2^32 + small), everything re-derived around it
     for k in [0u64, 7] {
         for which in 0..7 {
